@@ -38,6 +38,7 @@ for dp, dn, fns in os.walk(os.path.join(root, "canopen")):
                     a = n.args
                     funcs[q] = {"params": [x.arg for x in a.posonlyargs + a.args + a.kwonlyargs] + ([a.vararg.arg] if a.vararg else []) + ([a.kwarg.arg] if a.kwarg else []),
                                 "tests": canon.test_keys_of(n), "forms": canon.test_forms_of(n), "stmt_tests": canon.stmt_test_keys_of(n), "ifexp_tests": canon.ifexp_test_keys_of(n),
+                                "test_src": {canon._key(x.test): ast.unparse(x.test) for x in ast.walk(n) if isinstance(x, (ast.If, ast.While, ast.IfExp, ast.Assert))},
                                 "locals": sorted({x.id for x in ast.walk(n) if isinstance(x, ast.Name) and isinstance(x.ctx, ast.Store)}),
                                 "src": ast.unparse(n) if len(ast.unparse(n)) < 20000 else ""}
                     walk(n, q + ".")
